@@ -68,3 +68,318 @@ class _:
     }
     modifies = ['self.outgoing_messages', 'self.seq_message', 'self.stats.sent'] + ['field:PendingMessage.' + f for f in
                 ('seq', 'type', 'payload', 'callback', 'retry', 'assembled_time')]
+
+
+# ------------------------------------------------------------------------------------------ _build_packet_impl
+
+def ring_next(x):
+    return S.ite(S.ival(x) < S.M, S.ival(x) + 1, 1)
+
+
+def cattr(E, name):
+    return E.ip.class_attr(E.cls(PKT), name)[1]
+
+
+def msgs_kind(ip, v, name):
+    """the local list `msgs` (created as []) as a symbolic list of PendingMessage references with its measures"""
+    from pyvc.heap import fresh_like
+    if isinstance(v, SymSeq):
+        return fresh_like(ip, v, name)
+    s = SymSeq(z3.K(z3.IntSort(), z3.IntVal(0)), z3.IntVal(0), Kind('obj', ip.repo.cls(PM)))
+    s.meas['sumlen'] = z3.IntVal(0)
+    s.meas['flat'] = z3.Empty(BytesSort)
+    return fresh_like(ip, s, name)
+
+
+def fn_list_kind(ip, v, name):
+    from pyvc.heap import fresh_like
+    if isinstance(v, SymSeq):
+        return fresh_like(ip, v, name)
+    return fresh_like(ip, SymSeq(z3.K(z3.IntSort(), z3.IntVal(0)), z3.IntVal(0), Kind('fn')), name)
+
+
+def seq_list_kind(ip, v, name):
+    from pyvc.heap import fresh_like
+    if isinstance(v, SymSeq):
+        return fresh_like(ip, v, name)
+    return fresh_like(ip, SymSeq(z3.K(z3.IntSort(), z3.IntVal(0)), z3.IntVal(0), Kind('int', ip.repo.cls(SEQ))), name)
+
+
+def n_of(lst):
+    return S.len(lst)
+
+
+def packed_size_ok(msgs, E):
+    """the packet built from msgs, sealed, fits the datagram limit: 20 + overhead(n) + sum + 16 <= MAX_SIZE = MTU - 28"""
+    return 20 + overhead(n_of(msgs)) + S.meas(msgs, 'sumlen') + 16 <= cattr(E, 'MAX_SIZE')
+
+
+PACK_INV = {
+    'length-counter-is-the-sum': lambda msgs, current_msg_length: S.eq(current_msg_length, S.meas(msgs, 'sumlen')),
+    'selected-messages-fit-one-datagram': lambda msgs, E: packed_size_ok(msgs, E),
+    'at-most-255-messages': lambda msgs: n_of(msgs) <= 255,
+    'index-in-range': lambda idx: idx >= 0,
+}
+
+
+def pair_key(items, j):
+    from pyvc.values import pair_sort
+    ts, mk_, (a0, a1) = pair_sort(z3.IntSort(), z3.IntSort())
+    return a0(z3.Select(items.arr, j))
+
+
+def pair_val(items, j):
+    from pyvc.values import pair_sort
+    ts, mk_, (a0, a1) = pair_sort(z3.IntSort(), z3.IntSort())
+    return a1(z3.Select(items.arr, j))
+
+
+RETRY_INV = dict(PACK_INV)
+RETRY_INV.update({
+    # entries not yet visited are still in the retry table (so `del` cannot fail) - pointwise at j, used at j = idx
+    'unvisited-retry-entries-remain': lambda self, items, idx, j: S.bool(z3.Implies(
+        z3.And(S.term(idx, 'int') <= S.term(j), S.term(j) < items.n),
+        z3.And(dom(self.pending_retry_msg, pair_key(items, S.term(j))),
+               val(self.pending_retry_msg, pair_key(items, S.term(j))) == pair_val(items, S.term(j))))),
+    'messages-only-come-from-the-retry-table': lambda msgs, idx, items: (n_of(msgs) <= idx) & S.bool(S.term(idx, 'int') <= items.n),
+    'retry-table-size': lambda self, ghost, msgs: S.bool(self.pending_retry_msg.size == ghost.prm0 - S.term(n_of(msgs), 'int')),
+})
+
+
+def retry_init(ip, frame, env):
+    items = env['items']
+    items.facts.kfacts.add_index(ip, S.term(env['j'], 'int'))
+    # the pair list enumerates the table: instantiate the items contract at the Skolem position too
+    from pyvc.values import pair_sort
+    m = env['self'].pending_retry_msg
+    j = S.term(env['j'], 'int')
+    ip.ctx.assume(z3.Implies(z3.And(j >= 0, j < items.n), z3.And(
+        pair_key(items, j) == z3.Select(items.facts.kfacts.arr, j), pair_val(items, j) == z3.Select(m.val, pair_key(items, j)))))
+    ip.state.ghost['prm0'] = m.size
+
+
+def retry_instances(env):
+    return [{'j': env['idx']}]
+
+
+def packable(ghost, E):
+    """a message that travels alone fits a datagram: every payload up to MAX_PAYLOAD_SIZE (the single-datagram limit)"""
+    return ghost.head_len <= S.term(cattr(E, 'MAX_PAYLOAD_SIZE'), 'int')
+
+
+QUEUE_INV = dict(PACK_INV)
+QUEUE_INV.update({
+    'messages-only-come-from-the-queue': lambda self, ghost, msgs: S.bool(
+        S.term(n_of(msgs), 'int') - ghost.m1 == ghost.out1 - self.outgoing_messages.n),
+    'before-the-first-iteration': lambda self, ghost, idx: S.bool(z3.And(ghost.iters >= 0, z3.Implies(ghost.iters == 0, z3.And(
+        S.term(idx, 'int') == 0, self.outgoing_messages.n == ghost.out1,
+        z3.Implies(ghost.out1 > 0, z3.Select(self.outgoing_messages.arr, 0) == ghost.head1))))),
+    # P1 (C05): with nothing else selected, the message at the head of the queue is taken if it can travel alone
+    'head-of-line-message-is-taken': lambda ghost, msgs, E: S.bool(z3.Implies(
+        z3.And(ghost.m1 == 0, ghost.out1 > 0, packable(ghost, E), ghost.iters > 0),
+        z3.And(S.term(n_of(msgs), 'int') >= 1, z3.Select(as_msgs(msgs).arr, 0) == ghost.head1))),
+})
+
+
+def as_msgs(msgs):
+    if isinstance(msgs, SymSeq):
+        return msgs
+    return SymSeq(z3.K(z3.IntSort(), z3.IntVal(0)), z3.IntVal(0), None)
+
+
+def queue_init(ip, frame, env):
+    g = ip.state.ghost
+    out = env['self'].outgoing_messages
+    g['m1'] = S.term(n_of(env['msgs']), 'int')
+    g['out1'] = out.n
+    g['iters'] = z3.IntVal(0)
+    g['head1'] = z3.Select(out.arr, 0)
+    head = ip.wrap(g['head1'], out.elem)
+    g['head_len'] = ops.blen(S.term(head.payload))
+
+
+def queue_post(ip, frame, env):
+    ip.state.ghost['iters'] = ip.state.ghost['iters'] + 1
+
+
+@contract('connection.ConnectionBase._build_packet_impl', props=['C09', 'C05', 'C07', 'C03', 'C12', 'C08'])
+class _:
+    def setup(E):
+        set_limits(E)
+        self = make_conn(E)
+        E.ghost('conn', self)
+        return dict(self=self, current_time=E.real('current_time', lo=0), send_keep_alive=E.bool('send_keep_alive'),
+                    resend_delay=E.real('resend_delay', lo=0))
+    requires = {
+        # A-cadence: the sequence number about to be used has no open ticket (65535 sends take >= 1092 s, tickets live <= timeout)
+        'next-seq-has-no-open-ticket': lambda self: S.bool(z3.Not(dom(self.pending_acks, S.term(ring_next(self.seq_sending))))),
+        # table invariant J (keys of the callback/retry tables are open tickets), instantiated at the next sequence number
+        'no-stale-entries-for-the-next-seq': lambda self: S.bool(z3.And(
+            z3.Not(dom(self.pending_callbacks, S.term(ring_next(self.seq_sending)))),
+            z3.Not(dom(self.pending_retry, S.term(ring_next(self.seq_sending)))))),
+    }
+    skolems = {'s': 'int', 'c': 'int', 'j': 'int'}
+    uses = ['connection.Packet.create']
+    loops = {
+        0: LoopSpec(invariant=RETRY_INV, havoc=['self.pending_retry_msg'], havoc_kinds={'msgs': msgs_kind}, ghost_init=retry_init,
+                    instances=retry_instances, label='retry-loop'),
+        1: LoopSpec(invariant=QUEUE_INV, havoc=['self.outgoing_messages', 'ghost.iters'], havoc_kinds={'msgs': msgs_kind},
+                    ghost_init=queue_init, ghost_post=queue_post, label='queue-loop'),
+        2: LoopSpec(
+            invariant={
+                'registered-callbacks-are-callable': lambda callbacks, c: S.implies(
+                    (0 <= c) & (c < n_of(callbacks)), S.bool(z3.Select(as_seq(callbacks).arr, S.term(c)) != 0)),
+                'lists-bounded': lambda callbacks, retries, _i: (n_of(callbacks) <= _i) & (n_of(retries) <= _i),
+            },
+            havoc=['self.pending_retry_msg', 'field:PendingMessage.assembled_time'],
+            havoc_kinds={'callbacks': fn_list_kind, 'retries': seq_list_kind}, label='registration-loop'),
+    }
+    ensures = {
+        'datagram-fits-the-mtu': lambda result, E: S.implies(S.Not(S.is_none(result)),
+                                                             lambda_size(result, E)) if result is not None else True,
+        'count-fits-the-header': lambda result: (result.hdr.count <= 255) & S.eq(result.hdr.count, n_of(result.msgs)) if result is not None else True,
+        'sequence-number-advances-never-zero': lambda old, self, result: (
+            S.eq(S.ival(self.seq_sending), ring_next(old.self.seq_sending)) & S.eq(S.ival(result.hdr.seq), S.ival(self.seq_sending)))
+        if result is not None else S.eq(S.ival(self.seq_sending), S.ival(old.self.seq_sending)),
+        # C08: "the ack number and 32-bit ack bitmap carried by every outgoing datagram" are the receive window's
+        'ack-fields-are-the-receive-window': lambda self, result, j: (
+            S.eq(S.ival(result.hdr.ack), S.ival(self.bitfield_pkt.current_seqnum)) & S.same_bits(result.hdr.ack_bits, self.bitfield_pkt.bits, j))
+        if result is not None else True,
+        'header-time-and-direction': lambda self, result, current_time: (
+            S.eq(result.hdr.ctime, S.toint(current_time)) & S.eq(result.hdr.isServer, self.isServer)) if result is not None else True,
+        'ticket-opened-for-this-datagram': lambda old, self, result, current_time, s: (S.bool(z3.And(
+            dom(self.pending_acks, S.term(self.seq_sending, 'int')),
+            val(self.pending_acks, S.term(self.seq_sending, 'int')) == S.term(current_time, 'real'),
+            z3.Implies(S.term(s) != S.term(self.seq_sending, 'int'), same_at(self.pending_acks, old.self.pending_acks, S.term(s))))))
+        if result is not None else S.bool(same_at(self.pending_acks, old.self.pending_acks, S.term(s))),
+        'registered-callbacks-are-callable': lambda self, result, c: callable_clause(self, c) if result is not None else True,
+        # P0/P1 (C05 "no payload size is silently left unsent"): the head of the queue leaves in this datagram
+        # whenever it fits a datagram on its own and no retransmission was selected before it
+        'head-of-line-progress': lambda old, result, E: S.implies(
+            S.bool(z3.And(old.self.outgoing_messages.n > 0, old.self.pending_retry_msg.size == 0,
+                          ops.blen(S.term(E.elem(old.self.outgoing_messages, 0, old).payload)) <= S.term(cattr(E, 'MAX_PAYLOAD_SIZE'), 'int'))),
+            (result is not None) and S.bool(z3.And(result.msgs.n >= 1, z3.Select(result.msgs.arr, 0) == z3.Select(old.self.outgoing_messages.arr, 0)))),
+        # E1 (C12): a due keep-alive on a connected link always produces a datagram
+        'keep-alive-when-due': lambda old, result, send_keep_alive: S.implies(
+            send_keep_alive & S.enum_is(old.self.status, old.self.status.cls.class_attrs['CONNECTED']), result is not None),
+        'nothing-to-send-means-no-packet': lambda old, result, send_keep_alive: S.implies(
+            S.bool(z3.And(old.self.outgoing_messages.n == 0, old.self.pending_retry_msg.size == 0)) & S.Not(
+                send_keep_alive & S.enum_is(old.self.status, old.self.status.cls.class_attrs['CONNECTED'])), result is None),
+    }
+    modifies = ['self.pending_retry_msg', 'self.outgoing_messages', 'self.seq_sending', 'self.pending_acks', 'self.pending_callbacks',
+                'self.pending_retry', 'field:PendingMessage.assembled_time']
+
+
+def as_seq(v):
+    if isinstance(v, SymSeq):
+        return v
+    s = SymSeq(z3.K(z3.IntSort(), z3.IntVal(0)), z3.IntVal(len(v.items)), Kind('fn'))
+    return s
+
+
+def lambda_size(result, E):
+    return 20 + S.len(result.msg) + 16 <= cattr(E, 'MAX_SIZE')
+
+
+def callable_clause(self, c):
+    from pyvc.values import list_sort
+    ts, mk_, (acc_arr, acc_n) = list_sort(z3.IntSort())
+    k = S.term(self.seq_sending, 'int')
+    v = val(self.pending_callbacks, k)
+    return S.bool(z3.Implies(z3.And(dom(self.pending_callbacks, k), 0 <= S.term(c), S.term(c) < acc_n(v)), z3.Select(acc_arr(v), S.term(c)) != 0))
+
+
+def bpi_returns(E, args):
+    """result of _build_packet_impl for modular use: None or a fresh Packet"""
+    if E.ctx.choose(2) == 1:
+        return None
+    from contracts.c09_codec import fresh_bytes
+    h = E.obj('connection.PacketHeader', isServer=Sym(E.ctx.fresh('r_isServer', z3.BoolSort()), 'bool'),
+              ctime=Sym(E.ctx.fresh('r_ctime', z3.IntSort()), 'int'), pkt_type=E.enum(PTYPE, 'r_type_%d' % E.ctx.counter),
+              seq=Sym(E.ctx.fresh('r_seq', z3.IntSort()), 'int', E.cls(SEQ)), ack=Sym(E.ctx.fresh('r_ack', z3.IntSort()), 'int', E.cls(SEQ)),
+              ack_bits=BitSet((lambda f: (lambda j: f(j)))(z3.Function('r_ack_bits_%d' % E.ctx.counter, z3.IntSort(), z3.BoolSort())), None),
+              length=Sym(E.ctx.fresh('r_length', z3.IntSort()), 'int'), count=Sym(E.ctx.fresh('r_count', z3.IntSort()), 'int'))
+    msgs = SymSeq(E.ctx.fresh('r_msgs', z3.ArraySort(z3.IntSort(), z3.IntSort())), E.ctx.fresh('r_nmsgs', z3.IntSort()), Kind('obj', E.cls(PM)))
+    E.ctx.assume(msgs.n >= 0)
+    return E.obj(PKT, hdr=h, msg=Sym(fresh_bytes(E, 'r_msg'), 'bytes'), msgs=msgs)
+
+
+from pyvc import dsl as _dsl
+_dsl.REGISTRY['connection.ConnectionBase._build_packet_impl'].returns = bpi_returns
+
+SI = 1  # placeholder
+
+
+def nonce_ghost(E, self):
+    """ghost g_t[s] = build time of the latest datagram that used sequence number s; g_used[s]"""
+    g_t = z3.Const('g_t', z3.ArraySort(z3.IntSort(), z3.RealSort()))
+    g_used = z3.Const('g_used', z3.ArraySort(z3.IntSort(), z3.BoolSort()))
+    E.ghost('g_t', g_t)
+    E.ghost('g_used', g_used)
+
+
+def rdist_t(cur, s):
+    return (cur - s) % S.M
+
+
+def nonce_inv(g_t, g_used, last_send, si, cur, s):
+    """N(s): a sequence number used k sends ago was used at least k send intervals before the latest send"""
+    return z3.Implies(z3.And(z3.Select(g_used, s), 1 <= s, s <= S.M),
+                      z3.Select(g_t, s) <= last_send - si * z3.ToReal(rdist_t(cur, s)))
+
+
+@contract('connection.ConnectionBase._build_packet', props=['C03', 'C12', 'C09'])
+class _:
+    """C03: the protocol's send-rate cap (send_interval = 1/60 s, written only by __init__) makes every (second, seq) pair - hence
+    every AES-GCM nonce of one direction - unique across any number of wraps of the 16 bit sequence number; C12: E1."""
+    def setup(E):
+        set_limits(E)
+        self = make_conn(E, send_interval=Fraction(1, 60))
+        E.ghost('conn', self)
+        nonce_ghost(E, self)
+        g = E.ip.state.ghost
+        s = z3.Int('sk_s')
+        # N holds in the pre-state (pointwise at the Skolem s and at the sequence number about to be used)
+        for x in (s, S.term(ring_next(self.seq_sending))):
+            E.assume(nonce_inv(g['g_t'], g['g_used'], S.term(self.last_send_time, 'real'), z3.RealVal('1/60'), S.term(self.seq_sending, 'int'), x))
+        E.assume(z3.Implies(S.term(self.seq_sending, 'int') != 0, z3.Select(g['g_used'], S.term(self.seq_sending, 'int'))))
+        return dict(self=self)
+    requires = {
+        'next-seq-has-no-open-ticket': lambda self: S.bool(z3.Not(dom(self.pending_acks, S.term(ring_next(self.seq_sending))))),
+        'no-stale-entries-for-the-next-seq': lambda self: S.bool(z3.And(
+            z3.Not(dom(self.pending_callbacks, S.term(ring_next(self.seq_sending)))),
+            z3.Not(dom(self.pending_retry, S.term(ring_next(self.seq_sending)))))),
+        'last-send-is-a-past-clock-reading': lambda self: self.last_send_time >= -1,
+    }
+    skolems = {'s': 'int', 'c': 'int', 'j': 'int'}
+    uses = ['connection.ConnectionBase._build_packet_impl']
+
+    def finish(ip, env):
+        """ghost code: record the build time of the datagram just built"""
+        r = env.get('result') if 'result' in env else None
+    ensures = {
+        # E1 (C12): each side emits a datagram at least once per keep-alive interval plus one send tick
+        'keep-alive-emitted-when-due': lambda old, result, ghost: S.implies(
+            S.enum_is(old.self.status, old.self.status.cls.class_attrs['CONNECTED'])
+            & S.bool(z3.And(ghost.clock_last - S.term(old.self.last_send_time, 'real') >= z3.RealVal('1/60'),
+                            ghost.clock_last - S.term(old.self.last_send_keep_alive_time, 'real') > S.term(old.self.send_keep_alive_interval, 'real'))),
+            result is not None),
+        # send-rate cap (C03): never two datagrams within one send interval; the clocks restart on every datagram
+        'rate-cap-and-clocks': lambda old, self, result, ghost: (S.bool(z3.And(
+            ghost.clock_last - S.term(old.self.last_send_time, 'real') >= z3.RealVal('1/60'),
+            S.term(self.last_send_time, 'real') == ghost.clock_last, S.term(self.last_send_keep_alive_time, 'real') == ghost.clock_last)))
+        if result is not None else (S.eq(self.last_send_time, old.self.last_send_time) & S.eq(self.last_send_keep_alive_time, old.self.last_send_keep_alive_time)),
+        'header-carries-the-clock-second-and-next-seq': lambda old, result, ghost: (
+            S.bool(S.term(result.hdr.ctime, 'int') == z3.ToInt(ghost.clock_last)) & S.eq(S.ival(result.hdr.seq), ring_next(old.self.seq_sending)))
+        if result is not None else True,
+        # C03 freshness: the (second, seq) pair of the new datagram was never used before, even after the seq wrapped
+        'nonce-is-fresh': lambda old, result, ghost: S.bool(z3.Implies(
+            z3.Select(old.ghost.g_used, S.term(ring_next(old.self.seq_sending))),
+            z3.ToInt(ghost.clock_last) != z3.ToInt(z3.Select(old.ghost.g_t, S.term(ring_next(old.self.seq_sending))))))
+        if result is not None else True,
+        # N is preserved (with g_t, g_used updated for the new datagram), pointwise at s
+        'nonce-invariant-preserved': lambda old, self, result, ghost, s: S.bool(nonce_inv(
+            z3.Store(old.ghost.g_t, S.term(self.seq_sending, 'int'), ghost.clock_last) if result is not None else old.ghost.g_t,
+            z3.Store(old.ghost.g_used, S.term(self.seq_sending, 'int'), True) if result is not None else old.ghost.g_used,
+            S.term(self.last_send_time, 'real'), z3.RealVal('1/60'), S.term(self.seq_sending, 'int'), S.term(s))),
+    }
